@@ -17,7 +17,8 @@ import (
 	"golang.org/x/tools/go/ssa"
 )
 
-const verifDir = "/verif"
+var verifDir = "/verif"
+var outDir = "/verif" // evidence and replay files
 
 type knownFinding struct {
 	Prop       string
@@ -180,7 +181,7 @@ func runCheck(p *Prog, prop, tier string, timeout, workers int, verbose bool) in
 	for _, n := range base.Props[prop] {
 		baseSet[n] = true
 	}
-	os.MkdirAll(filepath.Join(verifDir, "replay"), 0o755)
+	os.MkdirAll(filepath.Join(outDir, "replay"), 0o755)
 	seenNames := map[string]bool{}
 	discharged, total, reachOK := 0, 0, 0
 	bySolver := map[string]int{}
@@ -325,9 +326,9 @@ func runCheck(p *Prog, prop, tier string, timeout, workers int, verbose bool) in
 			"explanation":              "every obligation is generated from the SSA of /repo's current working tree on this run and discharged (unsat) by an SMT back end; counts exclude obligations listed as known findings",
 		},
 	}
-	os.MkdirAll(filepath.Join(verifDir, "evidence"), 0o755)
+	os.MkdirAll(filepath.Join(outDir, "evidence"), 0o755)
 	data, _ := json.MarshalIndent(ev, "", " ")
-	os.WriteFile(filepath.Join(verifDir, "evidence", prop+".json"), append(data, '\n'), 0o644)
+	os.WriteFile(filepath.Join(outDir, "evidence", prop+".json"), append(data, '\n'), 0o644)
 	if verbose {
 		for _, r := range out.Results {
 			printResult(r, false)
@@ -383,7 +384,7 @@ func safeName(s string) string {
 }
 
 func writeReplay(prop string, o *Obligation, why string) string {
-	path := filepath.Join(verifDir, "replay", prop+"-"+safeName(o.Name)+".txt")
+	path := filepath.Join(outDir, "replay", prop+"-"+safeName(o.Name)+".txt")
 	var b strings.Builder
 	fmt.Fprintf(&b, "property: %s\nfailed obligation: %s\nkind: %s\nclause: %s\nposition: %s\nsolver: %s result: %s (%.2fs)\nreason: %s\n\n", prop, o.Name, o.Kind, o.Src, o.Pos, o.Solver, o.Result, o.TimeS, why)
 	if o.Model != "" {
